@@ -47,7 +47,7 @@ m = {
     ],
     "checks": checks,
     "not_applicable": na,
-    "notes": "All checks: exit 0 = every obligation discharged; exit 1 + VIOLATION line = an obligation that is discharged on the unchanged tree now fails; exit 2 = undecided (lost anchor / tool failure / resource limit / a watched function that is not under contract has changed and the bounded stand-in found nothing), never an alarm. A VIOLATION whose obligation name ends in `_replay` comes from a bounded native stand-in (engine native-bounded in the replay file), not from a proof. See DESIGN.md section 0a.",
+    "notes": "All checks: exit 0 = every obligation discharged; exit 1 + VIOLATION line = an obligation that is discharged on the unchanged tree now fails; exit 2 = undecided (lost anchor / tool failure / resource limit / a watched function that is not under contract has changed and the bounded stand-in found nothing), never an alarm. A VIOLATION whose obligation name ends in `_replay` comes from a bounded native stand-in (engine native-bounded in the replay file), not from a proof; on a tree whose sources differ from tree_hash.json those enumerations also run when every obligation passed (soft watch). See DESIGN.md section 0a.",
 }
 json.dump(m, open(os.path.join(ROOT, "MANIFEST.json"), "w"), indent=1)
 print("MANIFEST.json: %d checks, %d not applicable" % (len(checks), len(na)))
